@@ -201,9 +201,38 @@ def c05c(prog, R, rid="C05.c"):
                 return False, "%s (via %s)" % (w2, h.path)
         return True, "every invocation site is success-ordered after an upgrade"
 
+    may_up = MaySet(prog, [A.UPGRADE, A.UPGRADE_SEQNO, A.PERSIST_VERSION], "may reach a version upgrade")
+
+    def never_published_output(g, mc):
+        """The marked object is an output this operation wrote itself and was handed as a parameter (freshly flushed tables /
+        blob files), on a path on which no version upgrade has been attempted before and none is attempted afterwards: the
+        files are named by no version, neither in memory nor on disk (finding F15: a discarded flush result)."""
+        def roots(op, d=8, seen=None):
+            seen = seen if seen is not None else set()
+            out = []
+            for o in origins(g, op):
+                if o.kind == "call" and d > 0 and o.extra.bb not in seen and o.extra.args and not o.extra.local:
+                    seen.add(o.extra.bb)        # iterator plumbing of std: next / into_iter / flatten / iter
+                    for a_ in o.extra.args:
+                        out += roots(a_, d - 1, seen)
+                else:
+                    out.append(o)
+            return out
+        recv = roots(mc.args[0])
+        if not recv or not all(o.kind == "param" and g.local_name(o.what) in ("tables", "blob_files") for o in recv):
+            return False
+        ups = {c.bb for c in g.calls if may_up.call_in(c)}
+        before = any(mc.bb in g.reach_after(b) for b in ups)
+        after = bool(g.reach_after(mc.bb) & ups)
+        return not before and not after
+
     for mc in marks:
         g = mc.fn
         key = "%s|upgrade=>%s" % (g.path, short(mc.sres))
+        if never_published_output(g, mc):
+            r.ok("%s|%s of a never-published output" % (g.path, short(mc.sres)), "marked on a path without any version upgrade; receiver = the "
+                 "operation's own freshly written files")
+            continue
         good, why = ordered_after_upgrade(g, mc.bb)
         r.check(good, key, "mark_as_deleted is not success-ordered after a version upgrade: %s" % why, g.where(mc.bb), why)
     # remove_file census
@@ -244,10 +273,27 @@ def c05c(prog, R, rid="C05.c"):
             ok = nothing_published_path(g, c)
             r.check(ok, key + "|writer-produced-nothing",
                     "a writer unlinks its file on a path that still returns an id (Some)", g.where(c.bb))
+            # "nothing" means no item: the test that leads to the unlink compares the writer's item count with 0 (a byte count
+            # is not that: a file holding only empty values has items the tables point to)
+            cond_ok = False
+            for (a_, s_) in control_deps_transitive(g, c.bb):
+                for o in switch_condition(g, a_):
+                    if o.kind == "bin" and o.what in ("Eq", "Gt", "Ne", "Lt") and isinstance(o.extra, dict):
+                        ops_ = origins(g, o.extra["a"]) + origins(g, o.extra["b"])
+                        has_cnt = any(x.path and x.path[-1] == "item_count" for x in ops_)
+                        has_zero = any(x.kind == "const" and str(x.what) == "0" for x in ops_)
+                        t_ = g.blocks[a_]["term"]
+                        zero_t = [tg for (v, tg) in t_.get("targets", []) if str(v) == "0"]
+                        on_true = s_ not in zero_t
+                        empty_edge = (o.what == "Eq" and on_true) or (o.what in ("Gt", "Ne") and not on_true) or (o.what == "Lt" and on_true)
+                        cond_ok = cond_ok or (has_cnt and has_zero and empty_edge)
+            r.check(cond_ok, key + "|unlinks only when item_count == 0",
+                    "the writer's pre-created file is unlinked under another condition than `no item was written` (e.g. a byte count): "
+                    "a file that tables point into is deleted right after it was written", g.where(c.bb))
             continue
         r.bad(key + "|unclassified", "std::fs::remove_file outside the enumerated safe contexts (Drop+is_deleted, "
               "recovery after from_recovery, version-file GC, empty-writer cleanup)", g.where(c.bb))
-    r.floor(6 + 8)
+    r.floor(6 + 10)
 
 
 def nothing_published_path(f, c):
